@@ -230,8 +230,13 @@ func (vm *VM) generalIndirect(r int8) reflect.Value {
 		panic(errNilPointer)
 	}
 	elem := v.Elem()
-	if elem.Kind() == reflect.Func {
+	switch elem.Kind() {
+	case reflect.Func:
 		return reflect.ValueOf(&callable{native: NewNativeFunction("", "", elem)})
+	case reflect.Interface:
+		// As for the direct registers, the register contains the dynamic
+		// value of the interface, or the zero reflect.Value if it is nil.
+		return elem.Elem()
 	}
 	return elem
 }
